@@ -1016,6 +1016,68 @@ def _inline_module_constants(tree: ast.Module) -> bool:
     return changed
 
 
+def _inline_module_records(tree: ast.Module) -> bool:
+    """`_PREPARE = _LifecycleCall("preparing", "...")` at module level (a private NamedTuple /
+    frozen dataclass built from literals, bound once): `_PREPARE.error_phase` inside the module's
+    functions is the literal."""
+    recs: dict = {}
+    for st in tree.body:
+        if isinstance(st, ast.ClassDef) and st.name.startswith("_"):
+            is_nt = any("NamedTuple" in ast.unparse(b) for b in st.bases)
+            is_dc = any("dataclass" in ast.unparse(d) and "frozen=True" in ast.unparse(d) for d in st.decorator_list)
+            if is_nt or is_dc:
+                fields = [x.target.id for x in st.body if isinstance(x, ast.AnnAssign) and isinstance(x.target, ast.Name)]
+                if fields:
+                    recs[st.name] = fields
+    if not recs:
+        return False
+    consts: dict = {}
+    counts: dict = {}
+    for st in tree.body:
+        if isinstance(st, ast.Assign) and len(st.targets) == 1 and isinstance(st.targets[0], ast.Name):
+            nm = st.targets[0].id
+            counts[nm] = counts.get(nm, 0) + 1
+            v = st.value
+            if isinstance(v, ast.Call) and isinstance(v.func, ast.Name) and v.func.id in recs and not any(isinstance(a, ast.Starred) for a in v.args) and all(k.arg for k in v.keywords):
+                fields = recs[v.func.id]
+                vals = {}
+                for i, a in enumerate(v.args):
+                    if i < len(fields):
+                        vals[fields[i]] = a
+                for k in v.keywords:
+                    vals[k.arg] = k.value
+                if set(vals) == set(fields) and all(_is_const_value(x) for x in vals.values()):
+                    consts[nm] = vals
+    for n in ast.walk(tree):
+        if isinstance(n, ast.Global):
+            for x in n.names:
+                counts[x] = 99
+        elif isinstance(n, ast.Name) and isinstance(n.ctx, (ast.Store, ast.Del)) and n.id in consts:
+            counts[n.id] = counts.get(n.id, 0) + 1
+    consts = {k: v for k, v in consts.items() if counts.get(k) == 2}
+    if not consts:
+        return False
+    changed = False
+    for fn in ast.walk(tree):
+        if not isinstance(fn, (ast.FunctionDef, ast.AsyncFunctionDef)):
+            continue
+        local = {a.arg for a in fn.args.posonlyargs + fn.args.args + fn.args.kwonlyargs}
+        local |= {x.id for x in ast.walk(fn) if isinstance(x, ast.Name) and isinstance(x.ctx, (ast.Store, ast.Del))}
+
+        class R(ast.NodeTransformer):
+            def visit_Attribute(self, node):
+                nonlocal changed
+                self.generic_visit(node)
+                if isinstance(node.ctx, ast.Load) and isinstance(node.value, ast.Name) and node.value.id in consts and node.value.id not in local and node.attr in consts[node.value.id]:
+                    changed = True
+                    return ast.copy_location(copy.deepcopy(consts[node.value.id][node.attr]), node)
+                return node
+
+        r = R()
+        fn.body = [r.visit(st) for st in fn.body]
+    return changed
+
+
 def _flatten_star_tuples(tree: ast.Module) -> bool:
     """`f(*(a, b), c)` -> `f(a, b, c)`"""
     changed = False
@@ -1113,6 +1175,46 @@ def _forward_literals(tree: ast.Module) -> bool:
                 block[block.index(x)] = S().visit(x)
                 block.remove(st)
                 changed = True
+    return changed
+
+
+def _forward_whole_values(tree: ast.Module) -> bool:
+    """`t = E` directly followed by `X[k] = t` / `return t` / `y = t`, t a synthetic temporary
+    used nowhere else: the statement takes E as its value (E is evaluated at the same point)."""
+    changed = False
+    for fn in ast.walk(tree):
+        if not isinstance(fn, (ast.FunctionDef, ast.AsyncFunctionDef)):
+            continue
+        loads: dict = {}
+        stores: dict = {}
+        for n in ast.walk(fn):
+            if isinstance(n, ast.Name):
+                d = loads if isinstance(n.ctx, ast.Load) else stores
+                d[n.id] = d.get(n.id, 0) + 1
+        for owner in ast.walk(fn):
+            for fld in ("body", "orelse", "finalbody"):
+                blk = getattr(owner, fld, None)
+                if not isinstance(blk, list):
+                    continue
+                i = 0
+                while i + 1 < len(blk):
+                    st, nxt = blk[i], blk[i + 1]
+                    if (
+                        isinstance(st, ast.Assign)
+                        and len(st.targets) == 1
+                        and isinstance(st.targets[0], ast.Name)
+                        and _SYNTHETIC.match(st.targets[0].id)
+                        and loads.get(st.targets[0].id) == 1
+                        and stores.get(st.targets[0].id) == 1
+                        and isinstance(nxt, (ast.Assign, ast.Return))
+                        and isinstance(nxt.value, ast.Name)
+                        and nxt.value.id == st.targets[0].id
+                    ):
+                        nxt.value = st.value
+                        del blk[i]
+                        changed = True
+                        continue
+                    i += 1
     return changed
 
 
@@ -1219,6 +1321,8 @@ def normalize_tree(tree: ast.Module) -> bool:
         if _inline_module_constants(tree):
             changed_any = True
         tree._norm_consts_done = True  # type: ignore[attr-defined]
+    if _inline_module_records(tree):  # every time: inlining exposes new `CONST.field` reads
+        changed_any = True
     for _ in range(4):  # aliases of aliases
         if not (_inline_local_aliases(tree) | _propagate_name_copies(tree)):
             break
@@ -1232,7 +1336,7 @@ def normalize_tree(tree: ast.Module) -> bool:
             break
         changed_any = True
     for _ in range(3):
-        if not (_sink_into_branches(tree) | _forward_literals(tree)):
+        if not (_sink_into_branches(tree) | _forward_literals(tree) | _forward_whole_values(tree)):
             break
         changed_any = True
         _flatten_star_tuples(tree)
